@@ -103,15 +103,24 @@ int main(void) {
 		case OP_FROMSTR: {
 			uint8_t which = vin_u8(&in);
 			size_t tn; const uint8_t *tb = vin_blob(&in, &tn);
-			char *t = (char *)vx_dup(tb, tn);
-			uint16_t pl = 0xBEEF;
+			/* optional: `tail` decimal digits stored directly behind the text (the text is then a slice of a longer buffer);
+			 * they are not part of the text and must not influence the result */
+			size_t tail = (in.o < in.n) ? vin_u8(&in) : 0, i;
+			char *t = (char *)vx_alloc(tn + tail, '7');
+			uint16_t pl = 0xBEEF; uint32_t scope = 0, flow = 0;
 			struct sockaddr_storage *out = (struct sockaddr_storage *)vx_alloc(sizeof(*out), 0xA5);
-			int rc = call_from(which, out, t, tn, &pl);
+			int rc;
+			if (tn) memcpy(t, tb, tn);
+			for (i = 0; i < tail; i++) t[tn + i] = (char)('7' + (i % 3));
+			rc = call_from(which, out, t, tn, &pl);
 			vout_i32(&o, rc);
 			if (rc == 0) out_sa(&o, out); else { vout_u8(&o, 0); vout_blob(&o, "", 0); vout_u16(&o, 0); }
 			vout_u16(&o, pl);
+			/* the result object was filled with 0xA5 before the call: what a parsed IPv6 address leaves in the fields the text does not set */
+			if (rc == 0 && out->ss_family == AF_INET6) { const struct sockaddr_in6 *s6 = (const void *)out; scope = s6->sin6_scope_id; flow = s6->sin6_flowinfo; }
+			vout_u32(&o, scope); vout_u32(&o, flow);
 			vx_free((uint8_t *)out, sizeof(*out));
-			vx_free((uint8_t *)t, tn);
+			vx_free((uint8_t *)t, tn + tail);
 			break; }
 		case OP_LEN2MASK: {
 			uint8_t f = vin_u8(&in); uint64_t l = vin_u64(&in);
